@@ -13,6 +13,8 @@ pub mod c12;
 pub mod c13;
 pub mod c14;
 pub mod c15;
+pub mod c16;
+pub mod c17;
 
 pub fn dispatch(ctx: &Ctx) -> i32 {
     match ctx.id {
@@ -30,6 +32,8 @@ pub fn dispatch(ctx: &Ctx) -> i32 {
         "C13" => c13::run(ctx),
         "C14" => c14::run(ctx),
         "C15" => c15::run(ctx),
+        "C16" => c16::run(ctx),
+        "C17" => c17::run(ctx),
         other => {
             println!("INCONCLUSIVE property={other} reason=no monitor with this id");
             2
